@@ -118,3 +118,16 @@ Proof.
   destruct (Nat.leb_spec (offered h) k), (Nat.ltb_spec k (offered h + length p)); cbn [andb fst snd];
     split; try lia; auto.
 Qed.
+
+
+Lemma eager_writer_ok k : writer_ok (eager_writer k).
+Proof. intros h p. unfold eager_writer. cbn [fst snd]. split; lia. Qed.
+
+Lemma eager_writer_lift k h p : eager_writer k h p = lift (eager_lwriter (N.of_nat k)) h p.
+Proof.
+  unfold eager_writer, lift, eager_lwriter. rewrite nsumN_lengths. cbn [fst snd].
+  f_equal; [lia|].
+  destruct (Nat.ltb_spec (offered h) k), (Nat.leb_spec k (offered h + length p)),
+           (N.ltb_spec (N.of_nat (offered h)) (N.of_nat k)),
+           (N.leb_spec (N.of_nat k) (N.of_nat (offered h) + N.of_nat (length p))); cbn [andb]; lia.
+Qed.
